@@ -1,6 +1,18 @@
-"""C12 translator: IsotropicVolterraDislocation.py -> lean/Atomman/Generated/IsoVolterra.lean
+"""C12 — Volterra dislocation fields (Stroh anisotropic solver, isotropic closed form, orientation handling).
 
-(kept in its own file only for readability; `harness/props/c12.py` re-exports `translate`).
+Tie (both kinds):
+* translator: `translate()` regenerates lean/Atomman/Generated/IsoVolterra.lean from
+  atomman/defect/IsotropicVolterraDislocation.py on every run (see the section "translator" below);
+* correspondence: the real `Stroh` solver is run, its eigen-solver output `p, A, L, k` (and `k**.5`), the rotated
+  `C`, `m`, `n`, `b` are sent as exact rationals of the doubles (complex numbers as re/im pairs) to the compiled
+  Lean driver, which recomputes with the *model's* definitions the eigen-equation residuals `N v - p v`, the sextic
+  residual, the four orthogonality self-checks, `K_tensor`, the Burgers closure and the fields at sample points
+  (with `np.log(eta)` values as inputs); orientation handling (`__mn_check`, `axes_check`, `__find_transform`,
+  rotation of `C` and `b`) and the isotropic closed form (generated definitions + hand-written plumbing) are
+  compared the same way.
+Search: the property's clauses on the REAL code: finite-difference symmetric gradient, C:strain (exact Fractions),
+divergence, Burgers circuit / continuity, 1/r, K real-symmetric-positive-definite (exact Sylvester minors),
+covariance under rational rotations, refusals of non-unit / non-orthogonal axes, isotropic limit.
 
 What is generated (straight-line arithmetic, regenerated from /repo's working tree on every run):
   isoDisp_m / isoDisp_n / isoDisp_ξ   displacement components along m, n, ξ
@@ -255,3 +267,1118 @@ def translate():
                  f'def isoNu {{K : Type}} {CLS}\n    (bulk mu : K) : K :=\n  {s}\n')
     parts.append('end Atomman.Gen\n')
     return {'IsoVolterra': '\n'.join(parts)}
+
+
+# ==========================================================================================
+# property machinery
+# ==========================================================================================
+import math      # noqa: E402
+import random    # noqa: E402
+import time      # noqa: E402
+
+PROP = 'C12'
+GENERATED = ['IsoVolterra']
+F = Fraction
+TOL = 1e-8        # default `tol` of the solvers
+RTOL_NP = 1e-5    # numpy's default rtol of allclose (used by the code's self-checks and axes_check)
+
+
+def _np():
+    import numpy as np
+    return np
+
+
+# ------------------------------------------------------------------------------------------
+# generators (everything JSON-serialisable, every random choice from the rng handed in)
+# ------------------------------------------------------------------------------------------
+CLASSES = ['cubic', 'hexagonal', 'tetragonal', 'orthorhombic', 'rhombohedral', 'monoclinic', 'triclinic']
+
+
+def gen_cij(rng, cls, aniso=1.0, scale=1.0):
+    """6x6 stiffness of the given crystal class: isotropic base (lam, mu) plus class-shaped perturbations of relative
+    size `aniso`; resampled until clearly positive-definite."""
+    np = _np()
+    for _ in range(200):
+        mu = rng.uniform(0.4, 1.2)
+        lam = rng.uniform(0.3, 1.6)
+        c = np.zeros((6, 6))
+        c[:3, :3] = lam
+        for i in range(3):
+            c[i, i] = lam + 2 * mu
+            c[i + 3, i + 3] = mu
+
+        def d(s=0.35):
+            return aniso * rng.uniform(-s, s) * mu
+
+        def sym(i, j, v):
+            c[i, j] = c[j, i] = v
+        if cls == 'isotropic':
+            pass
+        elif cls == 'cubic':
+            v = d(0.6)
+            for i in range(3):
+                c[i + 3, i + 3] += v if abs(v) > 0.08 * mu * aniso else 0.2 * mu * aniso
+        elif cls in ('hexagonal', 'rhombohedral'):
+            sym(0, 2, c[0, 2] + d()); sym(1, 2, c[0, 2])
+            c[2, 2] += d(); v = d(); c[3, 3] += v; c[4, 4] += v
+            sym(0, 1, c[0, 1] + d())
+            c[5, 5] = (c[0, 0] - c[0, 1]) / 2
+            if cls == 'rhombohedral':
+                v = d(0.25)
+                sym(0, 3, v); sym(1, 3, -v); sym(4, 5, v)
+                if rng.random() < 0.5:
+                    w = d(0.15)
+                    sym(0, 4, w); sym(1, 4, -w); sym(3, 5, -w)
+        elif cls == 'tetragonal':
+            sym(0, 2, c[0, 2] + d()); sym(1, 2, c[0, 2])
+            c[2, 2] += d(); v = d(); c[3, 3] += v; c[4, 4] += v
+            sym(0, 1, c[0, 1] + d()); c[5, 5] += d()
+            if rng.random() < 0.5:
+                w = d(0.2)
+                sym(0, 5, w); sym(1, 5, -w)
+        elif cls in ('orthorhombic', 'monoclinic'):
+            for i in range(6):
+                c[i, i] += d()
+            for (i, j) in ((0, 1), (0, 2), (1, 2)):
+                sym(i, j, c[i, j] + d())
+            if cls == 'monoclinic':
+                for (i, j) in ((0, 5), (1, 5), (2, 5), (3, 4)):
+                    sym(i, j, d(0.2))
+        elif cls == 'triclinic':
+            for i in range(6):
+                for j in range(i, 6):
+                    sym(i, j, c[i, j] + d(0.2 if i != j else 0.35))
+        else:
+            raise ValueError(cls)
+        c = c * scale
+        if np.linalg.eigvalsh(c).min() > 0.15 * mu * scale:
+            return [[float(v) for v in row] for row in c]
+    raise RuntimeError('no positive-definite sample')
+
+
+def quat_rot(q):
+    """exact rational rotation matrix of an integer quaternion (a, b, c, d) != 0."""
+    a, b, c, d = (F(v) for v in q)
+    n = a * a + b * b + c * c + d * d
+    return [[(a * a + b * b - c * c - d * d) / n, 2 * (b * c - a * d) / n, 2 * (b * d + a * c) / n],
+            [2 * (b * c + a * d) / n, (a * a - b * b + c * c - d * d) / n, 2 * (c * d - a * b) / n],
+            [2 * (b * d - a * c) / n, 2 * (c * d + a * b) / n, (a * a - b * b - c * c + d * d) / n]]
+
+
+QUATS = [(1, 0, 0, 0), (2, 1, 0, 0), (3, 0, 1, 0), (1, 1, 1, 0), (2, 0, 0, 1), (1, 2, 3, 4), (3, 1, -1, 2), (1, 1, 1, 1),
+         (5, 2, 0, -1), (4, -1, 2, 2), (7, 1, 0, 0), (2, 3, -1, 1), (1, 0, 0, 1), (1, 0, 1, 0), (0, 1, 1, 0)]
+INT_AXES = [[[1, 0, 0], [0, 1, 0], [0, 0, 1]], [[1, 1, 0], [-1, 1, 0], [0, 0, 1]], [[1, -1, 0], [1, 1, -2], [1, 1, 1]],
+            [[1, 1, -2], [1, 1, 1], [1, -1, 0]], [[2, 0, 0], [0, 0.5, 0], [0, 0, 3]], [[0, 1, 0], [0, 0, 1], [1, 0, 0]],
+            [[1, 2, 2], [2, 1, -2], [-2, 2, -1]], [[1, 0, 1], [0, 2, 0], [-1, 0, 1]]]
+BOXES = [None, [[4.0, 0, 0], [0, 4.0, 0], [0, 0, 4.0]], [[3.0, 0, 0], [0, 3.0, 0], [0, 0, 5.0]],
+         [[3.0, 0, 0], [0, 4.5, 0], [0, 0, 5.25]], [[3.0, 0, 0], [-1.5, 2.598076211353316, 0], [0, 0, 5.0]],
+         [[3.0, 0, 0], [0.5, 2.5, 0], [0.25, -0.375, 4.0]]]
+MILLER = [([1, -1, 0], [1, 1, 1]), ([1, 1, -2], [1, 1, 1]), ([1, 0, -1], [1, 1, 1]), ([0, 0, 1], [1, 1, 0]),
+          ([1, 1, 1], [1, -1, 0]), ([1, 0, 0], [0, 1, 0]), ([0, 1, 0], [0, 0, 1]), ([1, -1, 1], [1, 1, 0]),
+          ([1, 1, 0], [0, 0, 1]), ([2, -1, 0], [1, 2, 1]), ([1, 2, -3], [1, 1, 1]), ([1, 0, 0], [0, 1, 1])]
+MN_STR = [('x', 'y'), ('y', 'z'), ('z', 'x'), ('y', 'x'), ('x', 'z'), ('z', 'y')]
+
+
+def _fl(M):
+    return [[float(v) for v in r] for r in M]
+
+
+def gen_mn(rng, kind=None):
+    """(m, n): strings or arrays (two rows of an exact rational rotation, rounded to double)."""
+    kind = kind or rng.choice(['default', 'str', 'rot', 'rot'])
+    if kind == 'default':
+        return 'x', 'y'
+    if kind == 'str':
+        return rng.choice(MN_STR)
+    R = quat_rot(rng.choice(QUATS))
+    i, j = rng.choice([(0, 1), (1, 2), (2, 0), (1, 0)])
+    return [float(v) for v in R[i]], [float(v) for v in R[j]]
+
+
+def gen_spec(rng, cls=None, route=None, mn=None, aniso=1.0):
+    cls = cls or rng.choice(CLASSES)
+    route = route or rng.choice(['default', 'transform', 'transform', 'axes', 'miller', 'miller'])
+    scale = rng.choice([1.0, 1.0, 160.25, 0.0078125])
+    spec = {'cls': cls, 'cij': gen_cij(rng, cls, aniso=aniso, scale=scale), 'route': route, 'tol': TOL,
+            'cart_axes': False, 'box': None, 'transform': None, 'xi_uvw': None, 'slip_hkl': None}
+    m, n = gen_mn(rng, mn)
+    spec['m'], spec['n'] = m, n
+    if route in ('transform', 'axes'):
+        if rng.random() < 0.6:
+            spec['transform'] = _fl(quat_rot(rng.choice(QUATS)))
+        else:
+            spec['transform'] = _fl(rng.choice(INT_AXES))
+        spec['box'] = rng.choice([None, None, BOXES[1]])
+    elif route == 'miller':
+        spec['xi_uvw'], spec['slip_hkl'] = rng.choice(MILLER)
+        spec['box'] = rng.choice(BOXES)
+    bs = rng.choice([1.0, 2.5, 0.5])
+    kind = rng.choice(['edge', 'screw', 'mixed', 'climb', 'any', 'crystal'])
+    spec['bkind'] = kind
+    if kind == 'crystal' or (route == 'miller' and rng.random() < 0.5):
+        spec['bkind'] = 'crystal'
+        spec['burgers'] = rng.choice([[0.5, -0.5, 0.0], [0.5, 0.0, -0.5], [1.0, 0.0, 0.0], [0.5, 0.5, 0.5],
+                                      [0.0, 0.0, 1.0], [1.0, 1.0, 0.0], [0.0, 0.5, 0.5]])
+    elif kind == 'any':
+        spec['burgers'] = [cm.dyadic(rng, -2, 2, 3) for _ in range(3)]
+        if not any(spec['burgers']):
+            spec['burgers'][0] = 1.0
+    else:
+        spec['burgers'] = kind      # resolved in the solver frame after m, n are known (see resolve_burgers)
+        spec['bsize'] = bs
+    return spec
+
+
+def mn_vectors(spec):
+    np = _np()
+    ax = {'x': [1.0, 0.0, 0.0], 'y': [0.0, 1.0, 0.0], 'z': [0.0, 0.0, 1.0]}
+    m = np.array(ax[spec['m']] if isinstance(spec['m'], str) else spec['m'], dtype=float)
+    n = np.array(ax[spec['n']] if isinstance(spec['n'], str) else spec['n'], dtype=float)
+    return m, n
+
+
+def resolve_burgers(spec):
+    """named Burgers vectors are given in the *solver* frame (edge = along m, screw = along m x n, ...), so they are
+    pulled back through the orientation transform to the crystal frame the API expects."""
+    np = _np()
+    if not isinstance(spec['burgers'], str):
+        return list(spec['burgers'])
+    m, n = mn_vectors(spec)
+    xi = np.cross(m, n)
+    s = spec.get('bsize', 1.0)
+    want = {'edge': s * m, 'screw': s * xi, 'mixed': s * (0.5 * m + 0.75 * xi), 'climb': s * (0.5 * m + 0.25 * n - 0.5 * xi)}[spec['burgers']]
+    T = np.eye(3)
+    if spec['route'] == 'miller':
+        import atomman as am
+        box = am.Box() if spec['box'] is None else am.Box(vects=np.array(spec['box'], dtype=float))
+        xa = box.vector_crystal_to_cartesian(spec['xi_uvw'])
+        xa = xa / np.linalg.norm(xa)
+        na = box.plane_crystal_to_cartesian(spec['slip_hkl'])
+        T = np.array([m, n, xi]).T.dot(np.array([np.cross(na, xa), na, xa]))
+    elif spec['transform'] is not None:
+        T = np.array(spec['transform'], dtype=float)
+        T = (T.T / np.linalg.norm(T, axis=1)).T
+    b = T.T.dot(want)
+    if spec['box'] is not None:
+        b = b.dot(np.linalg.inv(np.array(spec['box'], dtype=float)))
+    return [float(v) for v in b]
+
+
+def solver_kwargs(spec):
+    import atomman as am
+    np = _np()
+    kw = {'m': spec['m'], 'n': spec['n'], 'tol': spec['tol'], 'cart_axes': spec['cart_axes']}
+    if spec['box'] is not None:
+        kw['box'] = am.Box(vects=np.array(spec['box'], dtype=float))
+    if spec['route'] == 'transform':
+        kw['transform'] = np.array(spec['transform'], dtype=float)
+    elif spec['route'] == 'axes':
+        kw['axes'] = np.array(spec['transform'], dtype=float)
+    elif spec['route'] == 'miller':
+        kw['ξ_uvw'] = spec['xi_uvw']
+        kw['slip_hkl'] = spec['slip_hkl']
+    return kw
+
+
+def build(spec, which='stroh'):
+    import atomman as am
+    np = _np()
+    C = am.ElasticConstants(Cij=np.array(spec['cij'], dtype=float))
+    b = resolve_burgers(spec)
+    cls = {'stroh': am.defect.Stroh, 'iso': am.defect.IsotropicVolterraDislocation,
+           'auto': am.defect.solve_volterra_dislocation}[which]
+    return cls(C, b, **solver_kwargs(spec))
+
+
+def gen_points(rng, s, k, special=True):
+    """field points: generic, on the m / n axes, close to the cut, far and near, with arbitrary offset along ξ."""
+    np = _np()
+    m, n, xi = s.m, s.n, s.ξ
+    pts = []
+    for i in range(k):
+        r = rng.choice([1.0, 1.0, 0.125, 8.0, 100.0, 0.01])
+        kind = rng.choice(['gen', 'gen', 'gen', 'dy', 'xpos', 'yax', 'nearcut', 'nearcut2']) if special else 'gen'
+        if kind == 'gen':
+            x, y = rng.uniform(-1, 1) * r, rng.uniform(-1, 1) * r
+        elif kind == 'dy':
+            x, y = cm.dyadic(rng, -4, 4, 3), cm.dyadic(rng, -4, 4, 3)
+            if y == 0:
+                y = 0.5
+        elif kind == 'xpos':
+            x, y = abs(rng.uniform(0.1, 1)) * r, 0.0
+        elif kind == 'yax':
+            x, y = 0.0, rng.choice([-1, 1]) * rng.uniform(0.1, 1) * r
+        elif kind == 'nearcut':
+            x, y = -rng.uniform(0.1, 1) * r, rng.choice([-1, 1]) * r * 1e-9
+        else:
+            x, y = -rng.uniform(0.1, 1) * r, rng.choice([-1, 1]) * r * rng.uniform(1e-4, 1e-2)
+        z = rng.choice([0.0, rng.uniform(-5, 5)])
+        pts.append([float(v) for v in (x * m + y * n + z * xi)])
+    return pts
+
+
+# ------------------------------------------------------------------------------------------
+# wire helpers
+# ------------------------------------------------------------------------------------------
+def cfrs(arr):
+    np = _np()
+    out = []
+    for z in np.asarray(arr, dtype=complex).ravel().tolist():
+        out.append(cm.fr(z.real))
+        out.append(cm.fr(z.imag))
+    return ' '.join(out)
+
+
+def cplx(fr_list):
+    """[re, im, re, im, ...] Fractions -> list of python complex (floats) and the exact pairs."""
+    return [complex(float(fr_list[i]), float(fr_list[i + 1])) for i in range(0, len(fr_list), 2)]
+
+
+def problem_wire(s):
+    return ' '.join([cm.frs(s.C.Cij), cm.frs(s.m), cm.frs(s.n), cm.frs(s.burgers), cfrs(s.p), cfrs(s.A), cfrs(s.L),
+                     cfrs(s.k)])
+
+
+def all_finite(s):
+    np = _np()
+    return all(np.isfinite(np.asarray(a)).all() for a in (s.p, s.A, s.L, s.k))
+
+
+# ------------------------------------------------------------------------------------------
+# correspondence
+# ------------------------------------------------------------------------------------------
+N_STROH_C = 159        # complex numbers in the reply of `stroh`
+
+
+def _track(ctx, name, ratio):
+    d = ctx.extra.setdefault('max_residual_over_bound', {})
+    if ratio > d.get(name, 0.0):
+        d[name] = float(ratio)
+
+
+def _spec_sample(spec):
+    return {k: spec[k] for k in ('cls', 'route', 'm', 'n', 'xi_uvw', 'slip_hkl', 'bkind')}
+
+
+def _orientation_case(ctx, spec, s):
+    """__mn_check, axes_check / __find_transform, rotation of C and b: model vs the solver's stored values."""
+    import atomman as am
+    np = _np()
+    rep = {'op': 'orient', 'spec': spec}
+    tol = spec['tol']
+    m, n = mn_vectors(spec)
+    if not isinstance(spec['m'], str) or not isinstance(spec['n'], str):
+        out = ctx.driver.ask(f'mn {cm.fr(tol)} {int(spec["cart_axes"])} {cm.frs(m)} {cm.frs(n)}')
+        ctx.stats.case('mn-accept', (tuple(m), tuple(n)))
+        if out != '1':
+            ctx.disagree('mn:accept', f'implementation accepted m={m.tolist()}, n={n.tolist()}, model says {out}', rep)
+    box = am.Box() if spec['box'] is None else am.Box(vects=np.array(spec['box'], dtype=float))
+    if spec['route'] in ('transform', 'axes'):
+        ax = np.array(spec['transform'], dtype=float)
+        norms = np.linalg.norm(ax, axis=1)
+        out = ctx.driver.ask(f'axes {cm.fr(1e-8)} {cm.fr(RTOL_NP)} {cm.frs(ax)} {cm.frs(norms)}')
+        ctx.stats.case('axes_check', tuple(ax.ravel()))
+        nres = max(abs(float(F(float(norms[i])) ** 2 - sum(F(float(v)) ** 2 for v in ax[i]))) for i in range(3))
+        if nres > 1e-14 * float(norms.max()) ** 2:
+            ctx.disagree('axes:norm', f'row norms of the axes are not their square roots (residual {nres})', rep)
+        if out.startswith('err:') or not cm.allclose(s.transform.ravel(), cm.unfrs(out), 0, 1e-14):
+            ctx.disagree('axes_check', f'stored transform differs from the normalised axes: model {out[:80]}', rep)
+    elif spec['route'] == 'miller':
+        xi_axis = box.vector_crystal_to_cartesian(spec['xi_uvw'])
+        xi_axis = xi_axis / np.linalg.norm(xi_axis)
+        n_axis = box.plane_crystal_to_cartesian(spec['slip_hkl'])
+        out = ctx.driver.ask(f'ft {cm.frs(m)} {cm.frs(n)} {cm.frs(n_axis)} {cm.frs(xi_axis)}')
+        ctx.stats.case('find_transform', (tuple(m), tuple(n), tuple(spec['xi_uvw']), tuple(spec['slip_hkl'])),
+                       sample={'op': '__find_transform', 'xi_uvw': spec['xi_uvw'], 'slip_hkl': spec['slip_hkl'],
+                               'm': spec['m'], 'n': spec['n']})
+        if out.startswith('err:') or not cm.allclose(s.transform.ravel(), cm.unfrs(out), 0, 1e-14):
+            ctx.disagree('find_transform', f'transform from ξ_uvw={spec["xi_uvw"]}, slip_hkl={spec["slip_hkl"]}, '
+                         f'm={spec["m"]}, n={spec["n"]} differs from the model', rep)
+        # the transform must take the slip-plane normal to n and the line direction to m x n (exact check)
+        Tq = [[F(float(v)) for v in r] for r in s.transform]
+        for nm, src, dst in (('n', n_axis, n), ('ξ', xi_axis, np.cross(m, n))):
+            img = [sum(Tq[i][j] * F(float(src[j])) for j in range(3)) for i in range(3)]
+            if not cm.allclose(dst, img, 0, 1e-12):
+                ctx.disagree('find_transform:frame', f'transform does not map the crystal {nm} axis to the solver {nm} axis', rep)
+    # rotation of C and of the Burgers vector
+    cij = np.array(spec['cij'], dtype=float)
+    b = np.array(resolve_burgers(spec), dtype=float)
+    out = ctx.driver.ask(f'orient {cm.fr(tol)} {cm.frs(s.transform)} {cm.frs(box.vects)} {cm.frs(cij)} {cm.frs(b)}')
+    ctx.stats.case('rotate-C-b', (tuple(cij.ravel()), tuple(s.transform.ravel()), tuple(b)),
+                   sample={'op': 'rotate C, b', **_spec_sample(spec)})
+    if out.startswith('err:'):
+        ctx.disagree('orient:driver-error', f'model refused: {out}', rep)
+        return
+    vals = cm.unfrs(out)
+    big = float(np.abs(cij).max())
+    # entries within tol*max of the round-off clean-up threshold may be zeroed on one side only: atol 2 tol max
+    if not cm.allclose(s.C.Cij.ravel(), vals[:36], 1e-12, 2.5 * tol * big):
+        ctx.disagree('rotate:C', f'rotated stiffness differs from the model ({spec["cls"]}, route {spec["route"]})', rep)
+    bb = float(np.abs(s.burgers).max())
+    if not cm.allclose(s.burgers, vals[36:39], 1e-12, 2.5 * tol * bb):
+        ctx.disagree('rotate:b', f'rotated Burgers vector {s.burgers.tolist()} differs from the model '
+                     f'{[float(v) for v in vals[36:39]]}', rep)
+    if not (np.array_equal(s.m, m) and np.array_equal(s.n, n) and np.array_equal(s.ξ, np.cross(m, n))):
+        ctx.disagree('frame', 'stored m, n, ξ are not the requested axes and their cross product', rep)
+
+
+def _stroh_case(ctx, spec, s):
+    """eigen-solver output of the real solver -> residuals of every hypothesis of the theorems, K tensor, closure."""
+    np = _np()
+    rep = {'op': 'stroh', 'spec': spec}
+    tol = spec['tol']
+    sk = s.k ** .5
+    line = f'stroh {cm.fr(tol)} {cm.fr(RTOL_NP)} {cm.fr(np.pi)} {problem_wire(s)} {cfrs(sk)}'
+    out = ctx.driver.ask(line)
+    ctx.stats.case('stroh', line[:4000], sample={'op': 'Stroh.solve', **_spec_sample(spec),
+                                                'p': [str(z) for z in s.p]})
+    if out.startswith('err:'):
+        ctx.disagree('stroh:driver-error', f'model refused: {out}', rep)
+        return
+    vals = cm.unfrs(out)
+    conj, acc = vals[0], vals[1]
+    cs = cplx(vals[2:2 + 2 * N_STROH_C])
+    tail = [float(v) for v in vals[2 + 2 * N_STROH_C:]]
+    top, bot, sext, lres = (np.array(cs[18 * i:18 * i + 18]).reshape(6, 3) for i in range(4))
+    o = 72
+    kres, skres = np.array(cs[o:o + 6]), np.array(cs[o + 6:o + 12])
+    o += 12
+    cAL, cAA, cLL = (np.array(cs[o + 9 * i:o + 9 * i + 9]) for i in range(3))
+    o += 27
+    cST = np.array(cs[o:o + 36])
+    o += 36
+    Kt = np.array(cs[o:o + 9]).reshape(3, 3)
+    jump = np.array(cs[o + 9:o + 12])
+    Kc, kcoef, preln = np.array(tail[:9]).reshape(3, 3), tail[9], tail[10]
+    if conj != 1:
+        ctx.disagree('stroh:conj-pairs', 'eigen-solver output is not listed as adjacent exact conjugate pairs '
+                     '(hypothesis ConjPairs of K_real_partial)', rep)
+    if acc != 1:
+        ctx.disagree('stroh:accept', 'implementation accepted the eigen-solver output, the model\'s self-checks refuse it', rep)
+    # --- residual bounds: eps-level backward error of eig, scaled row-wise with the magnitudes entering each row
+    C4 = s.C.Cijkl
+    mm = np.einsum('i,ijkl,l', s.m, C4, s.m); mn = np.einsum('i,ijkl,l', s.m, C4, s.n)
+    nm = np.einsum('i,ijkl,l', s.n, C4, s.m); nn = np.einsum('i,ijkl,l', s.n, C4, s.n)
+    NB = -np.linalg.inv(nn); NA = NB.dot(nm); NC = mn.dot(NA) + mm; ND = mn.dot(NB)
+    aA, aL, ap = np.abs(s.A), np.abs(s.L), np.abs(s.p)[:, None]
+    cond = float(np.linalg.cond(np.hstack([s.A, s.L]).T))
+    eps = 1e-13 * max(cond, 1.0)
+    sc_top = (aA.dot(np.abs(NA).T) + aL.dot(np.abs(NB).T) + ap * aA).max(axis=1, keepdims=True)
+    sc_bot = (aA.dot(np.abs(NC).T) + aL.dot(np.abs(ND).T) + ap * aL).max(axis=1, keepdims=True)
+    cmax = float(np.abs(C4).max())
+    sc_sext = cmax * (1 + ap + ap * ap) * aA.max(axis=1, keepdims=True)
+    sc_l = cmax * (1 + ap) * aA.max(axis=1, keepdims=True) + aL.max(axis=1, keepdims=True)
+    checks = [('eigen-top', top, sc_top * eps), ('eigen-bottom', bot, sc_bot * eps),
+              ('sextic', sext, sc_sext * eps * 10), ('L=-(nm+p nn)A', lres, sc_l * eps * 10),
+              ('k', kres, np.abs(s.k) * 1e-13), ('sqrt k', skres, np.abs(s.k) * 1e-14)]
+    for name, res, bound in checks:
+        ratio = float((np.abs(res) / bound).max())
+        _track(ctx, name, ratio)
+        if ratio > 1.0:
+            ctx.disagree('stroh:' + name, f'residual of `{name}` recomputed by the model from the solver\'s p, A, L, k is '
+                         f'{float(np.abs(res).max()):.3e}, {ratio:.2e} x the round-off bound', rep)
+    # the four self-checks: the code itself demands |.| <= tol (+1e-5 on the diagonal); the model recomputes them
+    for name, res in (('sum k A L = 1', cAL), ('sum k A A = 0', cAA), ('sum k L L = 0', cLL), ('6x6 orthogonality', cST)):
+        r = float(np.abs(res).max())
+        _track(ctx, name, r / (tol + RTOL_NP))
+        if r > tol + RTOL_NP:
+            ctx.disagree('stroh:selfcheck', f'self-check `{name}` recomputed by the model is off by {r:.3e}', rep)
+    bmax = float(np.abs(s.burgers).max())
+    r = float(np.abs(jump).max())
+    _track(ctx, 'burgers closure', r / ((tol + RTOL_NP) * 3 * bmax))
+    if r > (tol + RTOL_NP) * 3 * bmax:
+        ctx.disagree('stroh:closure', f'model displacement jump differs from b by {r:.3e}', rep)
+    # K tensor, K_coeff, preln
+    Kimpl = s.K_tensor
+    kb = float(np.abs(Kt).max())
+    if np.iscomplexobj(Kimpl) or float(np.abs(Kt.imag).max()) > tol:
+        ctx.disagree('K:real', f'K_tensor is not real (max |Im| {float(np.abs(Kt.imag).max()):.3e})', rep)
+    elif not np.allclose(Kimpl, Kc, rtol=1e-10, atol=2.5 * tol * kb):
+        ctx.disagree('K_tensor', f'K_tensor differs from the model: {Kimpl.tolist()} vs {Kc.tolist()}', rep)
+    else:
+        bq = s.burgers
+        if not (cm.close(s.K_coeff, F(kcoef), 1e-9, 5 * tol * kb) and cm.close(s.preln, F(preln), 1e-9, 5 * tol * kb * float(bq.dot(bq)))):
+            ctx.disagree('K_coeff', f'K_coeff/preln {s.K_coeff}, {s.preln} differ from the model {kcoef}, {preln}', rep)
+    ctx.stats.case('K_tensor', tuple(np.asarray(Kimpl).ravel().tolist()))
+
+
+def _field_scales(s, pts):
+    """magnitudes of the sums the implementation evaluates (for the round-off bound of the comparison)."""
+    np = _np()
+    eta = s.eta(pts)
+    eta = eta.reshape(-1, 6)
+    updn = np.array([1, -1, 1, -1, 1, -1])
+    kLb = np.abs(s.k * updn * s.L.dot(s.burgers))
+    aA = np.abs(s.A).max(axis=1)
+    mpn = np.abs(s.m + np.outer(s.p, s.n)).max(axis=1)
+    su = (kLb * aA * np.abs(np.log(eta))).sum(axis=1) / (2 * np.pi)
+    se = (kLb * aA * mpn / np.abs(eta)).sum(axis=1) / (2 * np.pi)
+    ss = se * 9 * float(np.abs(s.C.Cijkl).max())
+    return eta, su, se, ss
+
+
+def _field_case(ctx, spec, s, pts):
+    np = _np()
+    P = np.array(pts, dtype=float)
+    rep = {'op': 'field', 'spec': spec, 'points': pts}
+    eta, su, se, ss = _field_scales(s, P)
+    ln = np.log(eta)
+    body = ' '.join(cm.frs(P[i]) + ' ' + cfrs(ln[i]) for i in range(len(P)))
+    out = ctx.driver.ask(f'field {cm.fr(np.pi)} {problem_wire(s)} {len(P)} {body}')
+    if out.startswith('err:'):
+        ctx.disagree('field:driver-error', f'model refused: {out}', rep)
+        return
+    vals = cplx(cm.unfrs(out))
+    single = len(P) == 1
+    arg = P[0] if single else P
+    U, E, S = s.displacement(arg), s.strain(arg), s.stress(arg)
+    shapes_ok = (U.shape, E.shape, S.shape) == (((3,), (3, 3), (3, 3)) if single else ((len(P), 3), (len(P), 3, 3), (len(P), 3, 3)))
+    if not shapes_ok:
+        ctx.disagree('field:shape', f'field arrays have shapes {U.shape}, {E.shape}, {S.shape} for {len(P)} points', rep)
+        return
+    U, E, S = (np.asarray(a).reshape((len(P),) + a.shape[(0 if single else 1):]) for a in (U, E, S))
+    for i in range(len(P)):
+        row = vals[27 * i:27 * i + 27]
+        m_eta, m_u = np.array(row[:6]), np.array(row[6:9])
+        m_e, m_s = np.array(row[9:18]).reshape(3, 3), np.array(row[18:27]).reshape(3, 3)
+        ctx.stats.case('field-point', (tuple(P[i]), tuple(s.p), tuple(s.burgers)),
+                       sample={'op': 'displacement/strain/stress', 'pos': P[i].tolist(), **_spec_sample(spec),
+                               'displacement': np.real(U[i]).tolist()})
+        r1 = dict(rep, index=i)
+        if not np.allclose(eta[i], m_eta, rtol=1e-13, atol=1e-13 * float(np.abs(P[i]).max()) * (1 + float(np.abs(s.p).max()))):
+            ctx.disagree('eta', f'eta at {P[i].tolist()} differs from x.m + p x.n', r1)
+            continue
+        for name, impl, model, scale in (('displacement', U[i], m_u, su[i]), ('strain', E[i], m_e, se[i]),
+                                         ('stress', S[i], m_s, ss[i])):
+            bound = 1e-11 * scale + 1e-300
+            if np.iscomplexobj(impl):
+                d = float(np.abs(impl - model).max())
+            else:
+                # real_if_close dropped imaginary parts below tol: the model's must be that small
+                d = max(float(np.abs(impl - model.real).max()), 0.0)
+                if float(np.abs(model.imag).max()) > spec['tol'] + bound:
+                    ctx.disagree(name + ':imag', f'{name} returned real but the model value has imaginary part '
+                                 f'{float(np.abs(model.imag).max()):.3e}', r1)
+            _track(ctx, name, d / bound)
+            if d > bound:
+                ctx.disagree(name, f'{name} at {P[i].tolist()} differs from the model by {d:.3e} '
+                             f'({d / bound:.2e} x the round-off bound): {np.asarray(impl).tolist()} vs {model.tolist()}', r1)
+
+
+def _iso_case(ctx, spec, s, pts):
+    """IsotropicVolterraDislocation vs the generated closed form + hand-written plumbing."""
+    import warnings
+    np = _np()
+    P = np.array(pts, dtype=float)
+    rep = {'op': 'iso', 'spec': spec, 'points': pts}
+    tol = spec['tol']
+    exact_frame = isinstance(spec['m'], str) and isinstance(spec['n'], str)
+    x, y = P.dot(s.m), P.dot(s.n)
+    with warnings.catch_warnings():
+        warnings.simplefilter('ignore')
+        with np.errstate(all='ignore'):
+            atn = np.arctan(y / x)
+            logv = np.log(x ** 2 + y ** 2)
+    body = ' '.join(f'{cm.frs(P[i])} {cm.fr(atn[i])} {cm.fr(logv[i])}' for i in range(len(P)))
+    out = ctx.driver.ask(f'iso {cm.fr(np.pi)} {cm.frs(s.m)} {cm.frs(s.n)} {cm.frs(s.burgers)} {cm.fr(s.mu)} {cm.fr(s.nu)} '
+                         f'{len(P)} {body}')
+    if out.startswith('err:'):
+        ctx.disagree('iso:driver-error', f'model refused: {out}', rep)
+        return
+    vals = [float(v) for v in cm.unfrs(out)]
+    single = len(P) == 1
+    arg = P[0] if single else P
+    TH, U, E, S = s.theta(arg if not single else P), s.displacement(arg), s.strain(arg), s.stress(arg)
+    if (U.shape, E.shape, S.shape) != (((3,), (3, 3), (3, 3)) if single else ((len(P), 3), (len(P), 3, 3), (len(P), 3, 3))):
+        ctx.disagree('iso:shape', f'field arrays have shapes {U.shape}, {E.shape}, {S.shape} for {len(P)} points', rep)
+        return
+    U, E, S = (np.asarray(a).reshape((len(P),) + a.shape[(0 if single else 1):]) for a in (U, E, S))
+    babs = float(np.abs(s.burgers).max())
+    for i in range(len(P)):
+        row = vals[24 * i:24 * i + 24]
+        mx, my, mth = row[:3]
+        m_u, m_e, m_s = np.array(row[3:6]), np.array(row[6:15]).reshape(3, 3), np.array(row[15:24]).reshape(3, 3)
+        r = math.hypot(x[i], y[i])
+        # a rotated frame rounds x = pos.m: the branch of theta is decided by the sign of a number of size 1e-16 r
+        edge = (not exact_frame) and (abs(mx) < 1e-12 * r or (mx < 0 and abs(my) < 1e-12 * r))
+        ctx.stats.case('iso-point', (tuple(P[i]), s.mu, s.nu, tuple(s.burgers), tuple(s.m), tuple(s.n)), nontrivial=not edge,
+                       sample={'op': 'isotropic fields', 'pos': P[i].tolist(), 'theta': float(TH[i]), 'm': spec['m'], 'n': spec['n']})
+        if edge:
+            continue
+        r1 = dict(rep, index=i)
+        if abs(TH[i] - mth) > 1e-14:
+            ctx.disagree('iso:theta', f'theta at x={x[i]!r}, y={y[i]!r} is {TH[i]!r}, model {mth!r}', r1)
+            continue
+        lg = abs(logv[i]) + math.pi + 1
+        for name, impl, model, scale in (('iso displacement', U[i], m_u, babs * lg), ('iso strain', E[i], m_e, babs / r),
+                                         ('iso stress', S[i], m_s, babs / r * s.mu * 4 / (1 - s.nu))):
+            d = float(np.abs(impl - model).max())
+            bound = 1e-12 * scale
+            _track(ctx, name, d / bound)
+            if d > bound:
+                ctx.disagree(name, f'{name} at {P[i].tolist()} differs from the generated closed form by {d:.3e}: '
+                             f'{impl.tolist()} vs {model.tolist()}', r1)
+
+
+def _isok_case(ctx, spec, s):
+    np = _np()
+    rep = {'op': 'isok', 'spec': spec}
+    bulk = s.C.bulk()
+    out = ctx.driver.ask(f'isok {cm.fr(spec["tol"])} {cm.fr(np.pi)} {cm.frs(s.m)} {cm.frs(s.n)} {cm.frs(s.burgers)} '
+                         f'{cm.fr(s.mu)} {cm.fr(bulk)}')
+    ctx.stats.case('iso-K', (s.mu, bulk, tuple(s.m), tuple(s.n), tuple(s.burgers)),
+                   sample={'op': 'isotropic K_tensor', 'mu': float(s.mu), 'nu': float(s.nu)})
+    if out.startswith('err:'):
+        ctx.disagree('isok:driver-error', f'model refused: {out}', rep)
+        return
+    v = [float(t) for t in cm.unfrs(out)]
+    if abs(v[0] - s.nu) > 1e-14:
+        ctx.disagree('iso:nu', f'Poisson ratio {s.nu!r} differs from (3K-2mu)/(2(3K+mu)) = {v[0]!r}', rep)
+    K = np.array(v[1:10]).reshape(3, 3)
+    kb = float(np.abs(K).max())
+    if not np.allclose(s.K_tensor, K, rtol=1e-12, atol=2.5 * spec['tol'] * kb):
+        ctx.disagree('iso:K_tensor', f'isotropic K_tensor {s.K_tensor.tolist()} differs from the model {K.tolist()}', rep)
+    elif not (abs(s.K_coeff - v[10]) <= 1e-9 * kb and abs(s.preln - v[11]) <= 1e-9 * kb * float(s.burgers.dot(s.burgers))):
+        ctx.disagree('iso:K_coeff', f'K_coeff/preln {s.K_coeff}, {s.preln} differ from the model {v[10]}, {v[11]}', rep)
+
+
+def _outcome(spec, which='stroh'):
+    """'ok' | 'err:assert' | 'err:value' | 'raised ...' of constructing the real solver."""
+    try:
+        build(spec, which)
+        return 'ok'
+    except AssertionError:
+        return 'err:assert'
+    except ValueError:
+        return 'err:value'
+    except Exception as e:  # noqa
+        return f'raised {type(e).__name__}: {e}'
+
+
+def gen_refusals(rng, k):
+    """specs with malformed orientation input, paired with nothing: the model decides what should happen."""
+    np = _np()
+    out = []
+    for it in range(k):
+        spec = gen_spec(rng, cls=rng.choice(['cubic', 'orthorhombic']), route=rng.choice(['default', 'transform']), mn='rot')
+        spec['burgers'] = [1.0, 0.5, 0.25]
+        m, n = (np.array(v) for v in mn_vectors(spec))
+        kind = ['m-norm', 'n-norm', 'angle', 'cart', 'cart-ok', 'axes-skew', 'axes-left', 'n-norm', 'angle'][it % 9]
+        spec['malformed'] = kind
+        if kind in ('m-norm', 'n-norm'):
+            f = 1 + rng.choice([1e-3, 1.0, -0.5, 2e-8, -2e-8, 0.5e-8, -0.5e-8, 1e-6, 0.25])
+            if kind == 'm-norm':
+                m = m * f
+            else:
+                n = n * f
+            spec['factor'] = f
+        elif kind == 'angle':
+            e = rng.choice([1e-3, 0.1, 2e-8, -2e-8, 0.5e-8, 1e-6])
+            n = n * math.cos(e) + m * math.sin(e)
+            spec['angle'] = e
+        elif kind == 'cart':
+            spec['cart_axes'] = True
+        elif kind == 'cart-ok':
+            spec['cart_axes'] = True
+            m, n = rng.choice([([1.0, 0, 0], [0, 1.0, 0]), ([0, 0, 1.0], [1.0, 0, 0]), ([-1.0, 0, 0], [0, 1.0, 0]),
+                               ([0, 1.0, 0], [0, 0, -1.0]), ([1.0, 1e-9, 0], [0, 1.0, 0])])
+            m, n = np.array(m), np.array(n)
+        elif kind == 'axes-skew':
+            spec['route'] = 'transform'
+            e = rng.choice([0.1, 1e-3, 1e-6, 1e-9])
+            spec['transform'] = [[1.0, e, 0.0], [0.0, 1.0, 0.0], [0.0, 0.0, 1.0]]
+            spec['skew'] = e
+        elif kind == 'axes-left':
+            spec['route'] = 'transform'
+            spec['transform'] = rng.choice([[[1.0, 0, 0], [0, 1.0, 0], [0, 0, -1.0]], [[0, 1.0, 0], [1.0, 0, 0], [0, 0, 1.0]],
+                                            [[1.0, 1.0, 0], [-1.0, 1.0, 0], [0, 0, -2.0]]])
+        spec['m'], spec['n'] = [float(v) for v in m], [float(v) for v in n]
+        out.append(spec)
+    return out
+
+
+def _refusal_case(ctx, spec):
+    np = _np()
+    rep = {'op': 'refusal', 'spec': spec}
+    impl = _outcome(spec)
+    m, n = mn_vectors(spec)
+    model = ctx.driver.ask(f'mn {cm.fr(spec["tol"])} {int(spec["cart_axes"])} {cm.frs(m)} {cm.frs(n)}')
+    if model == '1' and spec['route'] in ('transform', 'axes'):
+        ax = np.array(spec['transform'], dtype=float)
+        norms = np.linalg.norm(ax, axis=1)
+        o = ctx.driver.ask(f'axes {cm.fr(1e-8)} {cm.fr(RTOL_NP)} {cm.frs(ax)} {cm.frs(norms)}')
+        model = o if o.startswith('err:') else '1'
+    model = 'ok' if model == '1' else model
+    ctx.stats.case('malformed:' + spec['malformed'], (spec['malformed'], tuple(m), tuple(n), str(spec['transform'])),
+                   sample={'op': 'malformed orientation', 'kind': spec['malformed'], 'm': spec['m'], 'n': spec['n'],
+                           'implementation': impl, 'model': model})
+    if impl != model:
+        ctx.disagree('refusal:' + spec['malformed'], f'malformed orientation ({spec["malformed"]}, m={spec["m"]}, n={spec["n"]}, '
+                     f'cart_axes={spec["cart_axes"]}, transform={spec["transform"]}): implementation {impl}, model {model}', rep)
+
+
+def gen_iso_spec(rng):
+    # the isotropic solver is for Burgers vectors in the slip plane: always edge / screw / mixed in the solver frame
+    spec = gen_spec(rng, cls='isotropic')
+    if not isinstance(spec['burgers'], str) or spec['burgers'] == 'climb':
+        spec['burgers'] = rng.choice(['edge', 'screw', 'mixed'])
+        spec['bkind'] = spec['burgers']
+        spec['bsize'] = rng.choice([1.0, 2.5, 0.5])
+    return spec
+
+
+def correspond(ctx):
+    np = _np()
+    rng = ctx.rng
+    t0 = time.time()
+    n_deg = 0
+    for it in range(ctx.n(36, 400)):
+        spec = gen_spec(rng, cls=CLASSES[it % len(CLASSES)])
+        out = _outcome(spec)
+        if out != 'ok':
+            # exact eigenvalue degeneracy (e.g. line along the six-fold axis) is outside the property's quantifier
+            ctx.stats.case('stroh-refused', str(spec), nontrivial=False)
+            n_deg += 1
+            if out != 'err:value' or spec['cls'] not in ('hexagonal', 'tetragonal', 'rhombohedral'):
+                ctx.disagree('stroh:raises', f'Stroh refused a generic {spec["cls"]} problem: {out}', {'op': 'stroh', 'spec': spec})
+            continue
+        s = build(spec)
+        _orientation_case(ctx, spec, s)
+        _stroh_case(ctx, spec, s)
+        npts = rng.choice([1, 1, 3, 6, 9])
+        _field_case(ctx, spec, s, gen_points(rng, s, npts))
+    ctx.extra['degenerate_refused'] = n_deg
+    ctx.extra['t_stroh_s'] = round(time.time() - t0, 2)
+    t1 = time.time()
+    for it in range(ctx.n(16, 160)):
+        spec = gen_iso_spec(rng)
+        try:
+            s = build(spec, 'iso')
+        except Exception as e:  # noqa
+            ctx.disagree('iso:raises', f'IsotropicVolterraDislocation refused an isotropic problem: {type(e).__name__}: {e}',
+                         {'op': 'iso', 'spec': spec})
+            continue
+        _orientation_case(ctx, spec, s)
+        _isok_case(ctx, spec, s)
+        _iso_case(ctx, spec, s, gen_points(rng, s, rng.choice([1, 4, 8, 12])))
+    for spec in gen_refusals(rng, ctx.n(36, 270)):
+        _refusal_case(ctx, spec)
+    ctx.extra['t_iso_refusals_s'] = round(time.time() - t1, 2)
+
+
+
+# ------------------------------------------------------------------------------------------
+# search: the property's clauses evaluated on the REAL code (no Lean model involved)
+# ------------------------------------------------------------------------------------------
+def _frame_point(s, r, th, z=0.0):
+    np = _np()
+    return r * math.cos(th) * s.m + r * math.sin(th) * s.n + z * s.ξ
+
+
+def _richardson(f, X, h):
+    """4th-order central difference of f (vectorised over points) along the three lab axes:
+       returns D[j] = d f / d x_j at X."""
+    np = _np()
+    pts = []
+    for j in range(3):
+        e = np.zeros(3)
+        e[j] = 1.0
+        pts += [X + h * e, X - h * e, X + h / 2 * e, X - h / 2 * e]
+    v = f(np.array(pts))
+    D = []
+    for j in range(3):
+        a, b, c, d = v[4 * j:4 * j + 4]
+        D.append((4 * (c - d) / h - (a - b) / (2 * h)) / 3)
+    return D
+
+
+def _exact_C_strain(C4, eps):
+    """sigma_ij = sum_kl C_ijkl eps_kl in exact rational arithmetic on the doubles."""
+    Cq = [[[[F(float(C4[i][j][k][l])) for l in range(3)] for k in range(3)] for j in range(3)] for i in range(3)]
+    Eq = [[F(float(eps[k][l])) for l in range(3)] for k in range(3)]
+    sig = [[sum(Cq[i][j][k][l] * Eq[k][l] for k in range(3) for l in range(3)) for j in range(3)] for i in range(3)]
+    mag = [[sum(abs(Cq[i][j][k][l] * Eq[k][l]) for k in range(3) for l in range(3)) for j in range(3)] for i in range(3)]
+    return sig, mag
+
+
+def _posdef_exact(K):
+    """Sylvester's criterion in exact arithmetic on the symmetrised doubles."""
+    q = [[(F(float(K[i][j])) + F(float(K[j][i]))) / 2 for j in range(3)] for i in range(3)]
+    m1 = q[0][0]
+    m2 = q[0][0] * q[1][1] - q[0][1] * q[1][0]
+    m3 = (q[0][0] * (q[1][1] * q[2][2] - q[1][2] * q[2][1]) - q[0][1] * (q[1][0] * q[2][2] - q[1][2] * q[2][0])
+          + q[0][2] * (q[1][0] * q[2][1] - q[1][1] * q[2][0]))
+    return m1 > 0 and m2 > 0 and m3 > 0
+
+
+def _clauses(ctx, spec, s, rng, kind):
+    """every field clause of the property at a few points of one solved problem."""
+    np = _np()
+    rep0 = {'op': 'clauses', 'solver': kind, 'spec': spec}
+    b = s.burgers
+    bn = float(np.linalg.norm(b))
+    C4 = s.C.Cijkl
+    cmax = float(np.abs(C4).max())
+    # ---- K tensor -----------------------------------------------------------------------
+    K = s.K_tensor
+    ctx.stats.case('oracle:K', (kind, str(spec['cij']), str(spec['m']), str(spec['n']), str(spec['transform'])),
+                   sample={'op': 'K_tensor', 'solver': kind, **_spec_sample(spec), 'K': np.real(K).tolist()})
+    if np.iscomplexobj(K):
+        ctx.violate('K:complex', f'K_tensor is complex for a positive-definite {spec["cls"]} medium', rep0)
+    else:
+        kmax = float(np.abs(K).max())
+        if float(np.abs(K - K.T).max()) > 1e-12 * kmax:
+            ctx.violate('K:symmetric', f'K_tensor is not symmetric: {K.tolist()}', rep0)
+        elif not _posdef_exact(K):
+            ctx.violate('K:posdef', f'K_tensor is not positive-definite: {K.tolist()}', rep0)
+        kc = float(b.dot(K.dot(b)) / b.dot(b))
+        if not (abs(s.K_coeff - kc) <= 1e-12 * kmax and abs(s.preln - kc * b.dot(b) / (4 * math.pi)) <= 1e-12 * kmax * bn * bn
+                and s.K_coeff > 0):
+            ctx.violate('K:coeff', f'K_coeff {s.K_coeff}, preln {s.preln} are not b.K.b/b.b and b.K.b/4pi', rep0)
+    # ---- field points ---------------------------------------------------------------------
+    for it in range(3):
+        r = rng.choice([1.0, 0.03125, 8.0, 50.0, 1.0])
+        th = rng.uniform(-math.pi + 0.05, math.pi - 0.05)
+        if it == 0:
+            th = rng.choice([0.0, math.pi / 2, -math.pi / 2, 3.0, -3.0, math.pi / 4])
+        z = rng.choice([0.0, 1.5, -20.0])
+        X = _frame_point(s, r, th, z)
+        rep = dict(rep0, point=X.tolist(), r=r, theta=th)
+        u, e, sg = s.displacement(X), s.strain(X), s.stress(X)
+        ctx.stats.case('oracle:point', (kind, tuple(X), tuple(b), str(spec['cij'])),
+                       sample={'op': 'field clauses', 'solver': kind, 'pos': X.tolist(), 'r': r, 'theta': th})
+        if np.iscomplexobj(u) or np.iscomplexobj(e) or np.iscomplexobj(sg) or u.shape != (3,) or e.shape != (3, 3):
+            ctx.violate('field:real', f'{kind}: fields at an off-cut point are complex or mis-shaped', rep)
+            continue
+        es = max(float(np.abs(e).max()), bn / (2 * math.pi * r))
+        ss = max(float(np.abs(sg).max()), cmax * es)
+        # strain = symmetric gradient of the displacement (4th-order differences, h = r/1000; the stencil stays
+        # off the cut because |theta| <= pi - 0.05)
+        h = r * 1e-3
+        D = _richardson(s.displacement, X, h)                       # D[j][i] = d u_i / d x_j
+        G = np.array(D)
+        sym = (G + G.T) / 2
+        d = float(np.abs(sym - e).max())
+        if d > 1e-7 * es:
+            ctx.violate(f'{kind}:strain-symgrad', f'{kind}: strain at {X.tolist()} differs from the symmetric gradient of '
+                        f'the displacement by {d:.3e} (strain scale {es:.3e}): strain {e.tolist()}, sym grad {sym.tolist()}', rep)
+        if float(np.abs(e - e.T).max()) > 1e-13 * es:
+            ctx.violate(f'{kind}:strain-symmetric', f'{kind}: strain is not symmetric at {X.tolist()}', rep)
+        # stress = C : strain, exactly on the doubles
+        sig, mag = _exact_C_strain(C4, e)
+        bad = [(i, j) for i in range(3) for j in range(3)
+               if abs(float(sg[i][j]) - float(sig[i][j])) > 1e-11 * float(mag[i][j]) + 2.5 * spec['tol'] * ss]
+        if bad:
+            ctx.violate(f'{kind}:hooke', f'{kind}: stress at {X.tolist()} is not C:strain in components {bad}: '
+                        f'stress {sg.tolist()}, C:strain {[[float(v) for v in r_] for r_ in sig]}', rep)
+        # divergence-free
+        DS = _richardson(s.stress, X, h)                             # DS[j][i][k] = d sigma_ik / d x_j
+        div = np.array([sum(DS[j][i][j] for j in range(3)) for i in range(3)])
+        if float(np.abs(div).max()) > 1e-6 * ss / r:
+            ctx.violate(f'{kind}:divergence', f'{kind}: div(stress) at {X.tolist()} is {div.tolist()} '
+                        f'(stress scale/r = {ss / r:.3e})', rep)
+        # 1/r
+        for t in (2.0, 0.5, 10.0, 0.3):
+            Xt = _frame_point(s, r * t, th, z)
+            e2, s2 = s.strain(Xt), s.stress(Xt)
+            if float(np.abs(e2 * t - e).max()) > 1e-10 * es or float(np.abs(s2 * t - sg).max()) > 1e-10 * ss:
+                ctx.violate(f'{kind}:inverse-r', f'{kind}: strain/stress at {t} x distance is not 1/{t} of the value at {X.tolist()}', rep)
+                break
+        # independent of the coordinate along the line; arrays = single points
+        Xz = X + 3.25 * s.ξ
+        arr = np.array([X, Xz, X])
+        ua, ea, sa = s.displacement(arr), s.strain(arr), s.stress(arr)
+        us = bn * (abs(math.log(r)) + 4)
+        if ua.shape != (3, 3) or ea.shape != (3, 3, 3) or float(np.abs(ua[0] - u).max()) > 1e-12 * us \
+                or float(np.abs(ea[2] - e).max()) > 1e-12 * es or float(np.abs(sa[0] - sg).max()) > 1e-12 * ss:
+            ctx.violate(f'{kind}:array', f'{kind}: fields of an array of points differ from the single-point values', rep)
+        elif float(np.abs(ua[1] - u).max()) > 1e-10 * us or float(np.abs(ea[1] - e).max()) > 1e-10 * es:
+            ctx.violate(f'{kind}:line-invariance', f'{kind}: fields change along the dislocation line at {X.tolist()}', rep)
+    # ---- Burgers vector: jump across the cut, continuity elsewhere -------------------------------
+    for it in range(3):
+        r = rng.choice([1.0, 0.25, 30.0])
+        z = rng.choice([0.0, -2.0])
+        dlt = 1e-8
+        up, dn = _frame_point(s, r, math.pi - dlt, z), _frame_point(s, r, -math.pi + dlt, z)
+        uu = s.displacement(np.array([up, dn]))
+        rep = dict(rep0, r=r, above=up.tolist(), below=dn.tolist())
+        ctx.stats.case('oracle:burgers-circuit', (kind, r, z, tuple(b), str(spec['cij'])),
+                       sample={'op': 'jump across the cut', 'solver': kind, 'r': r, 'jump': np.real(uu[0] - uu[1]).tolist(),
+                               'burgers': b.tolist()})
+        if np.iscomplexobj(uu):
+            ctx.violate(f'{kind}:jump-complex', f'{kind}: displacement next to the cut is complex', rep)
+            continue
+        jump = uu[0] - uu[1]
+        beff = b if kind == 'stroh' else b.dot(s.m) * s.m + b.dot(s.ξ) * s.ξ     # the isotropic solver is for b in the slip plane
+        if float(np.abs(jump - beff).max()) > 1e-6 * bn:
+            ctx.violate(f'{kind}:burgers-jump', f'{kind}: displacement jump across the cut at distance {r} is {jump.tolist()}, '
+                        f'Burgers vector {beff.tolist()}', rep)
+        # closed circuit: sum of the increments around the circle, not crossing the cut, equals the same jump;
+        # every single increment stays within the Lipschitz bound (continuity elsewhere)
+        nseg = 48
+        ths = [-math.pi + dlt + k * (2 * math.pi - 2 * dlt) / nseg for k in range(nseg + 1)]
+        circ = s.displacement(np.array([_frame_point(s, r, t, z) for t in ths]))
+        inc = np.abs(np.diff(np.real(circ), axis=0)).max()
+        # exact zeros of the frame coordinates: the y = 0, x > 0 half-plane and the x = 0 plane are not special
+        for th0 in (0.0, math.pi / 2, -math.pi / 2, rng.uniform(-3, 3)):
+            c0 = math.cos(th0) if abs(th0) != math.pi / 2 else 0.0
+            P0 = r * c0 * s.m + r * math.sin(th0) * s.n + z * s.ξ
+            e1 = r * 1e-8 * (-math.sin(th0) * s.m + math.cos(th0) * s.n)
+            tri = s.displacement(np.array([P0 - e1, P0, P0 + e1]))
+            if np.iscomplexobj(tri) or float(np.abs(tri[0] - tri[1]).max()) > 1e-6 * bn or float(np.abs(tri[2] - tri[1]).max()) > 1e-6 * bn:
+                ctx.violate(f'{kind}:continuity', f'{kind}: displacement is discontinuous off the cut, at angle {th0} distance {r}: '
+                            f'{np.asarray(tri).tolist()}', dict(rep, theta=th0))
+                break
+        if inc > 2.0 * bn * (2 * math.pi / nseg) * 10:
+            ctx.violate(f'{kind}:continuity', f'{kind}: displacement increment {inc:.3e} between neighbouring points of a circuit '
+                        f'of radius {r} that does not cross the cut', rep)
+
+
+def _rot_float(R):
+    np = _np()
+    return np.array([[float(v) for v in r] for r in R])
+
+
+def _covariance(ctx, spec, rng, kind):
+    """rotate the whole problem (solver frame: m, n, the orientation transform) by an exact rational rotation."""
+    np = _np()
+    R = _rot_float(quat_rot(rng.choice(QUATS[1:])))
+    specB = dict(spec)
+    m, n = mn_vectors(spec)
+    specB['m'], specB['n'] = [float(v) for v in R.dot(m)], [float(v) for v in R.dot(n)]
+    if isinstance(spec['burgers'], str):
+        specB['burgers'] = resolve_burgers(spec)        # the same crystal-frame Burgers vector
+    if spec['route'] in ('default', 'transform', 'axes'):
+        T0 = np.eye(3) if spec['transform'] is None else np.array(spec['transform'], dtype=float)
+        T0 = (T0.T / np.linalg.norm(T0, axis=1)).T
+        specB['route'] = 'transform'
+        specB['transform'] = R.dot(T0).tolist()
+    rep = {'op': 'covariance', 'solver': kind, 'spec': spec, 'rotated': specB, 'R': R.tolist()}
+    try:
+        A, B = build(spec, kind), build(specB, kind)
+    except Exception as e:  # noqa
+        ctx.violate(f'{kind}:covariance-raises', f'{kind}: the rotated problem is refused: {type(e).__name__}: {e}', rep)
+        return
+    tol = 5e-7
+    ctx.stats.case('oracle:covariance', (kind, str(spec['cij']), str(specB['m']), str(specB['n']), str(specB['transform'])),
+                   sample={'op': 'covariance', 'solver': kind, 'R': R.tolist(), **_spec_sample(spec)})
+    bn = float(np.linalg.norm(A.burgers))
+    kmax = float(np.abs(A.K_tensor).max())
+    bad = []
+    if float(np.abs(B.transform - R.dot(A.transform)).max()) > 1e-12:
+        bad.append('transform')
+    if float(np.abs(B.burgers - R.dot(A.burgers)).max()) > tol * bn:
+        bad.append('burgers')
+    CA = np.einsum('ig,jh,km,ln,ghmn->ijkl', R, R, R, R, A.C.Cijkl)
+    if float(np.abs(B.C.Cijkl - CA).max()) > tol * float(np.abs(CA).max()):
+        bad.append('C')
+    if float(np.abs(B.K_tensor - R.dot(A.K_tensor).dot(R.T)).max()) > tol * kmax:
+        bad.append('K_tensor')
+    if abs(B.K_coeff - A.K_coeff) > tol * kmax or abs(B.preln - A.preln) > tol * kmax * bn * bn:
+        bad.append('K_coeff/preln')
+    if abs(B.characterangle() - A.characterangle()) > 1e-6:
+        bad.append('characterangle')
+    for it in range(3):
+        r = rng.choice([1.0, 0.125, 12.0])
+        th = rng.uniform(-3.0, 3.0)
+        X = _frame_point(A, r, th, rng.choice([0.0, 2.0]))
+        Y = R.dot(X)
+        es = bn / r
+        ss = es * float(np.abs(A.C.Cijkl).max())
+        if float(np.abs(B.displacement(Y) - R.dot(A.displacement(X))).max()) > tol * bn * (abs(math.log(r)) + 4):
+            bad.append(f'displacement at {X.tolist()}')
+        if float(np.abs(B.strain(Y) - R.dot(A.strain(X)).dot(R.T)).max()) > tol * es * 10:
+            bad.append(f'strain at {X.tolist()}')
+        if float(np.abs(B.stress(Y) - R.dot(A.stress(X)).dot(R.T)).max()) > tol * ss * 10:
+            bad.append(f'stress at {X.tolist()}')
+    if bad:
+        ctx.violate(f'{kind}:covariance', f'{kind}: rotating the whole problem by R={R.tolist()} does not rotate: {bad[:4]} '
+                    f'({spec["cls"]}, route {spec["route"]}, m={spec["m"]}, n={spec["n"]})', rep)
+
+
+def _refusal_oracle(ctx, spec):
+    """exact decision (rational arithmetic) of what __mn_check has to do with array-valued axes, clear cases only."""
+    tol = F(spec['tol'])
+    m, n = mn_vectors(spec)
+    mq, nq = [F(float(v)) for v in m], [F(float(v)) for v in n]
+    verdicts = []
+    for v in (mq, nq):
+        n2 = sum(c * c for c in v)
+        if not ((1 - tol / 2) ** 2 <= n2 <= (1 + tol / 2) ** 2):
+            verdicts.append('refuse' if not ((1 - 2 * tol) ** 2 <= n2 <= (1 + 2 * tol) ** 2) else 'unclear')
+        else:
+            verdicts.append('accept')
+    d = abs(sum(a * b for a, b in zip(mq, nq)))
+    verdicts.append('accept' if d <= tol / 2 else ('refuse' if d >= 2 * tol else 'unclear'))
+    if spec['cart_axes']:
+        for v in (mq, nq):
+            k = sum(1 for c in v if abs(c - 1) <= tol)
+            verdicts.append('accept' if k == 1 else 'refuse')
+    if 'unclear' in verdicts:
+        return None
+    return 'refuse' if 'refuse' in verdicts else 'accept'
+
+
+def _search_refusals(ctx, rng, k):
+    for spec in gen_refusals(rng, k):
+        if spec['malformed'].startswith('axes'):
+            # rows (1, e, 0), (0, 1, 0): the unit rows have dot product e / sqrt(1 + e^2), tolerance 1e-8
+            want = 'accept' if spec.get('skew', 1.0) <= 2e-9 else 'refuse-value'
+        else:
+            want = _refusal_oracle(ctx, spec)
+        if want is None:
+            continue
+        got = {w: _outcome(spec, w) for w in ('stroh', 'auto')}
+        ctx.stats.case('oracle:refusal', (spec['malformed'], str(spec['m']), str(spec['n']), str(spec['transform'])),
+                       sample={'op': 'malformed orientation (exact oracle)', 'kind': spec['malformed'], 'expected': want, 'got': got})
+        rep = {'op': 'refusal', 'spec': spec, 'expected': want}
+        for w, g in got.items():
+            if want == 'accept' and g != 'ok':
+                ctx.violate('refusal:valid-refused', f'{w}: valid axes m={spec["m"]}, n={spec["n"]} (cart_axes={spec["cart_axes"]}) '
+                            f'are refused: {g}', rep)
+            elif want == 'refuse' and g != 'err:assert':
+                ctx.violate('refusal:' + spec['malformed'], f'{w}: axes m={spec["m"]}, n={spec["n"]} (cart_axes={spec["cart_axes"]}; '
+                            f'{spec["malformed"]}) must be refused with an AssertionError, got: {g}', rep)
+            elif want == 'refuse-value' and g != 'err:value':
+                ctx.violate('refusal:' + spec['malformed'], f'{w}: transform {spec["transform"]} ({spec["malformed"]}) must be '
+                            f'refused with a ValueError, got: {g}', rep)
+
+
+def _iso_limit(ctx, rng):
+    """the anisotropic solution approaches the closed-form isotropic one as the anisotropy vanishes; the dispatcher
+    picks the isotropic solver exactly for isotropic constants."""
+    import atomman as am
+    np = _np()
+    spec0 = gen_iso_spec(rng)
+    spec0['burgers'] = resolve_burgers(spec0)
+    try:
+        iso = build(spec0, 'iso')
+        auto = build(spec0, 'auto')
+    except Exception as e:  # noqa
+        ctx.violate('iso:raises', f'isotropic problem refused: {type(e).__name__}: {e}', {'op': 'iso-limit', 'spec': spec0})
+        return
+    rep = {'op': 'iso-limit', 'spec': spec0}
+    ctx.stats.case('oracle:dispatch', str(spec0), sample={'op': 'solve_volterra_dislocation', 'returned': type(auto).__name__})
+    if type(auto) is not am.defect.IsotropicVolterraDislocation:
+        ctx.violate('dispatch:isotropic', f'solve_volterra_dislocation returned {type(auto).__name__} for isotropic constants', rep)
+    bn = float(np.linalg.norm(iso.burgers))
+    pts = np.array([_frame_point(iso, r, th) for r, th in ((1.0, 0.7), (0.2, -2.0), (9.0, 2.9), (3.0, -0.4))])
+    prev = None
+    for eps in (1e-2, 1e-3):
+        spec = dict(spec0)
+        c = np.array(spec0['cij'])
+        mu = c[3, 3]
+        for i in range(3):
+            c[i + 3, i + 3] += eps * mu          # cubic anisotropy of relative size eps
+        c[0, 1] -= 0.5 * eps * mu; c[1, 0] = c[0, 1]
+        spec['cij'] = c.tolist()
+        spec['cls'] = 'cubic'
+        try:
+            st = build(spec, 'auto')
+        except Exception as e:  # noqa
+            ctx.violate('iso-limit:raises', f'weakly anisotropic problem (eps={eps}) refused: {type(e).__name__}: {e}', dict(rep, eps=eps))
+            return
+        if type(st) is not am.defect.Stroh:
+            ctx.violate('dispatch:anisotropic', f'solve_volterra_dislocation returned {type(st).__name__} for anisotropy {eps}', dict(rep, eps=eps))
+            return
+        dU = st.displacement(pts) - iso.displacement(pts)
+        du = float(np.abs(dU - dU[0]).max()) / bn            # the two closed forms differ by a rigid translation
+        de = float((np.abs(st.strain(pts) - iso.strain(pts)).reshape(len(pts), -1).max(axis=1) * np.array([1.0, 0.2, 9.0, 3.0])).max()) / bn
+        dk = float(np.abs(st.K_tensor - iso.K_tensor).max()) / float(np.abs(iso.K_tensor).max())
+        ctx.stats.case('oracle:iso-limit', (eps, str(spec0['cij']), str(spec0['m']), str(spec0['n'])),
+                       sample={'op': 'anisotropy -> 0', 'eps': eps, 'displacement_diff': du, 'strain_diff': de, 'K_diff': dk})
+        cur = (du, de, dk)
+        if max(cur) > 20 * eps:
+            ctx.violate('iso-limit', f'Stroh solution at anisotropy {eps} differs from the isotropic closed form by '
+                        f'(displacement, strain*r, K) = {cur} (relative)', dict(rep, eps=eps))
+            return
+        if prev is not None and any(c_ > 0.3 * p_ + 1e-9 for c_, p_ in zip(cur, prev)):
+            ctx.violate('iso-limit:rate', f'difference to the isotropic closed form does not shrink with the anisotropy: '
+                        f'{prev} at 1e-2, {cur} at 1e-3', dict(rep, eps=eps))
+        prev = cur
+
+
+def search(ctx, broken):
+    rng = random.Random(ctx.seed * 7919 + 12)
+    mult = 3 if broken else 1
+    t0 = time.time()
+    n = ctx.n(21, 280) * mult
+    for it in range(n):
+        iso = it % 4 == 3
+        spec = gen_iso_spec(rng) if iso else gen_spec(rng, cls=CLASSES[it % len(CLASSES)])
+        kind = 'iso' if iso else 'stroh'
+        try:
+            s = build(spec, kind)
+        except ValueError:
+            if iso or spec['cls'] not in ('hexagonal', 'tetragonal', 'rhombohedral'):
+                ctx.violate(f'{kind}:refused', f'{kind} solver refused a generic {spec["cls"]} problem (ValueError)',
+                            {'op': 'clauses', 'solver': kind, 'spec': spec})
+            continue
+        except Exception as e:  # noqa
+            ctx.violate(f'{kind}:raises', f'{kind} solver raised {type(e).__name__}: {e}', {'op': 'clauses', 'solver': kind, 'spec': spec})
+            continue
+        _clauses(ctx, spec, s, rng, kind)
+        if it % 2 == 0:
+            _covariance(ctx, spec, rng, kind)
+    _search_refusals(ctx, rng, ctx.n(27, 180) * mult)
+    for it in range(ctx.n(3, 30) * mult):
+        _iso_limit(ctx, rng)
+    ctx.extra['t_search_s'] = round(time.time() - t0, 2)
+
+
+def replay(ctx, payload):
+    """re-run the stored case against the current tree."""
+    r = payload.get('replay', {}) or {}
+    op = r.get('op')
+    rng = random.Random(0)
+    if op in ('clauses', 'covariance') and 'spec' in r:
+        kind = r.get('solver', 'stroh')
+        try:
+            s = build(r['spec'], kind)
+        except Exception as e:  # noqa
+            ctx.violate(f'{kind}:raises', f'replayed problem raised {type(e).__name__}: {e}', r)
+            return
+        _clauses(ctx, r['spec'], s, rng, kind)
+        for _ in range(4):
+            _covariance(ctx, r['spec'], rng, kind)
+        print('replay', op, kind, 'violations now:', len(ctx.violations))
+    elif op == 'refusal' and 'spec' in r:
+        spec = r['spec']
+        print('replay refusal:', {w: _outcome(spec, w) for w in ('stroh', 'auto')}, 'expected', r.get('expected'))
+        want = r.get('expected')
+        for w in ('stroh', 'auto'):
+            g = _outcome(spec, w)
+            if (want == 'accept' and g != 'ok') or (want == 'refuse' and g != 'err:assert') or (want == 'refuse-value' and g != 'err:value'):
+                ctx.violate('refusal:' + spec.get('malformed', '?'), f'replayed malformed-orientation case: {w} gives {g}, expected {want}', r)
+    else:
+        if ctx.driver is not None:
+            correspond(ctx)
+        search(ctx, True)
+
+
+# ------------------------------------------------------------------------------------------
+# declarations read by ./check
+# ------------------------------------------------------------------------------------------
+THEOREMS = [
+    # Stroh sextic eigenproblem
+    'C12.stroh_L', 'C12.stroh_sextic',
+    # field formulas: strain = sym grad u, stress = C : strain, div stress = 0, 1/r
+    'C12.eta_dir_deriv', 'C12.strain_is_symgrad', 'C12.stress_is_C_strain', 'C12.stress_is_C_strain_at',
+    'C12.stress_div_free', 'C12.stress_div_free_of_eigen', 'C12.eta_homog', 'C12.falls_as_inv_r',
+    # Burgers vector
+    'C12.burgers_closure', 'C12.disp_continuous_off_cut',
+    # energy-coefficient tensor
+    'C12.K_symm', 'C12.kOf_conj', 'C12.K_real_partial',
+    # isotropic closed form (generated definitions)
+    'C12.iso_stress_is_hooke',
+]
+PARTIAL = {}
+RULE = ''
+ASSUMPTIONS = []
+TRUSTED = []
+
+MANIFEST = {
+    'text': 'placeholder',
+    'note': 'placeholder',
+    'technique': 'Lean 4 theorems over a hand-written model + translator + differential correspondence',
+}
